@@ -1,6 +1,17 @@
 package main
 
-import "slipvc/vc"
+import (
+	"bytes"
+	"encoding/json"
+	"os"
+	"os/exec"
+	"sort"
+	"strings"
+
+	"golang.org/x/tools/go/ssa"
+
+	"slipvc/vc"
+)
 
 func init() {
 	register(&propDef{id: "C01", run: runTraceProp, level: "proof", technique: "contracts over a ghost evaluation trace (which sub-form is evaluated, how often, in which order and scope, with which result) on the evaluator's special forms; loop invariants; WP over go/ssa; z3"})
@@ -10,9 +21,132 @@ func init() {
 func runTraceProp(c *Ctx) {
 	cs := loadContracts(c)
 	opt := vc.Options{Safety: false, InlineDepth: 2, InlineSize: 100}
+	c.Replayer = replayExits
 	runContracts(c, cs, opt, defaultSolve())
+	if c.Prop == "C07" {
+		sweepExits(c, cs, opt)
+	}
 	c.Assume = append(c.Assume,
 		"every evaluation of a Lisp form (slip.EvalArg, Scope.Eval, Object.Eval, Caller.Call) is one ghost event with an arbitrary result and arbitrary effects on the heap",
 		"composition over the nesting of forms (a sub-form's own evaluation obeys its own contract) is a meta-argument, not machine checked",
 		"panicking exits (conditions) are not explored: cleanup-on-error clauses are not covered")
+}
+
+// sweepExits: the package-wide contract `every-function <pkg> forward-exits`: every function of the package
+// that evaluates Lisp forms itself (slip.EvalArg, Scope.Eval) and has no C07 contract of its own is verified
+// against the exit-forwarding discipline: nothing is evaluated after an evaluation returned a return-from / go
+// marker, and the marker is what the function returns.
+func sweepExits(c *Ctx, cs *vc.Contracts, opt vc.Options) {
+	pkgs := map[string]bool{}
+	for _, p := range cs.Sweeps["forward-exits"] {
+		pkgs[p] = true
+	}
+	if len(pkgs) == 0 {
+		return
+	}
+	var names []string
+	for n := range c.P.Funcs {
+		names = append(names, n)
+	}
+	sort.Strings(names)
+	var roots []*ssa.Function
+	for _, n := range names {
+		fn := c.P.Funcs[n]
+		if !pkgs[pkgShort(fn)] || len(fn.Blocks) == 0 || fn.Parent() != nil || !vc.EvaluatesForms(fn) {
+			continue
+		}
+		if ct := cs.ByFunc[n]; ct != nil {
+			continue // has a contract block (its own exit clauses, or deliberately none)
+		}
+		roots = append(roots, fn)
+	}
+	// synthetic contract blocks: the package-wide clause applied to each function
+	for _, fn := range roots {
+		n := vc.FuncName(fn)
+		cs.ByFunc[n] = &vc.Contract{Func: n, Loops: map[string][]*vc.Clause{}, Options: map[string]bool{"forward-exits": true}, Props: []string{"C07"}}
+	}
+	o := opt
+	o.Contracts = cs
+	res := c.runUnits(roots, o, defaultSolve(), 16)
+	c.addResults(res)
+	c.Extra["forward_exits_sweep_functions"] = len(roots)
+}
+
+// lispNameOf: the Lisp name of the built-in whose Call method (or Place) is the root.
+func lispNames(c *Ctx) map[string]string {
+	out := map[string]string{}
+	for _, d := range c.P.DocArities() {
+		out[d.Pkg+".(*"+d.TypeName+").Call"] = d.LispName
+	}
+	// ordinary functions get their arguments from Function.Eval: any of them shows what it does
+	out["slip.(*Function).Eval"] = "list"
+	return out
+}
+
+type exitResult struct {
+	Failed   bool   `json:"failed"`
+	Input    string `json:"input"`
+	Observed string `json:"observed"`
+	Expected string `json:"expected"`
+	Ran      int    `json:"ran"`
+}
+
+// replayExits: exit-forwarding obligations are replayed by evaluating generic shapes of the form with a
+// (return-from ..) / (go ..) sub-form followed by a logging form (harness/exits).
+func replayExits(c *Ctx, items []*Item) map[string]*ReplayOutcome {
+	res := map[string]*ReplayOutcome{}
+	names := lispNames(c)
+	want := map[string]bool{}
+	for _, it := range items {
+		if ln := names[it.Root]; ln != "" && exitObligation(it.Name) && ln != "unwind-protect" {
+			want[ln] = true
+		}
+	}
+	if len(want) == 0 {
+		return res
+	}
+	var forms []string
+	for f := range want {
+		forms = append(forms, f)
+	}
+	sort.Strings(forms)
+	bin, err := buildHarness("exits")
+	if err != nil {
+		return res
+	}
+	scratch, _ := os.MkdirTemp("", "slipvc-exits-")
+	defer os.RemoveAll(scratch)
+	in, _ := json.Marshal(map[string]any{"forms": forms})
+	cmd := exec.Command(bin)
+	cmd.Dir = scratch
+	cmd.Stdin = bytes.NewReader(in)
+	out, err := cmd.Output()
+	if err != nil {
+		c.Notes = append(c.Notes, "exits harness: "+err.Error())
+		return res
+	}
+	var parsed struct {
+		Results map[string]*exitResult `json:"results"`
+	}
+	if json.Unmarshal(out, &parsed) != nil {
+		return res
+	}
+	for _, it := range items {
+		ln := names[it.Root]
+		r := parsed.Results[ln]
+		if r == nil || !exitObligation(it.Name) {
+			continue
+		}
+		oc := &ReplayOutcome{Harness: "exits", Ran: true}
+		if r.Failed {
+			oc.Failed, oc.Input, oc.Observed, oc.Expected = true, r.Input, r.Observed, r.Expected
+			oc.Class = "(" + ln + " ...) does not forward an exit"
+		}
+		res[it.Name] = oc
+	}
+	return res
+}
+
+func exitObligation(name string) bool {
+	return strings.Contains(name, "/trace@exit-forwarded") || strings.Contains(name, "/trace@no-eval-after-exit") || strings.Contains(name, "/post@exit")
 }
